@@ -124,10 +124,14 @@ class igmp (packet_base):
       s = struct.pack("!BBHHH", self.ver_and_type, 0, 0, 0, num)
       s += self.extra
 
-      for _ in range(num):
-        off,gr = GroupRecord.unpack_new(self.extra)
-        self.extra = self.extra[off:]
-        self.group_records.append(gr)
+      try:
+        for _ in range(num):
+          off,gr = GroupRecord.unpack_new(self.extra)
+          self.extra = self.extra[off:]
+          self.group_records.append(gr)
+      except Exception as e:
+        self.msg('(igmp parse) bad group record: %s' % (e,))
+        return
 
     elif ver_and_type in (MEMBERSHIP_QUERY, MEMBERSHIP_REPORT,
                           MEMBERSHIP_REPORT_V2, LEAVE_GROUP_V2):
@@ -179,10 +183,12 @@ class GroupRecord (object):
 
   @classmethod
   def unpack_new (cls, raw, offset=0):
-    t, auxlen, n, addr = struct.unpack_from("BBH4s", raw, offset)
+    t, auxlen, n, addr = struct.unpack_from("!BBH4s", raw, offset)
     offset += 1+1+2+4
     addr = IPAddr(addr)
     auxlen *= 4
+    if len(raw) < offset + 4 * n + auxlen:
+      raise TruncatedException()
     addrs = []
     for _ in range(n):
       addrs.append( IPAddr(raw[offset:offset+4])  )
@@ -193,7 +199,7 @@ class GroupRecord (object):
     return offset,r
 
   def pack (self):
-    o = struct.pack("BBH", self.type, len(self.aux) // 4,
+    o = struct.pack("!BBH", self.type, len(self.aux) // 4,
                     len(self.source_addresses))
     o += self.address.raw
     for sa in self.source_addresses:
